@@ -8,6 +8,8 @@ var $getStackDepth = () => {
 };
 
 var $panicStackDepth = null, $panicValue;
+/* The invocations of $callDeferred that are unwinding a panic right now, innermost last. */
+var $panicRuns = [];
 var $callDeferred = (deferred, jsErr, fromPanic) => {
     if (!fromPanic && deferred !== null && $curGoroutine.deferStack.indexOf(deferred) == -1) {
         throw jsErr;
@@ -29,11 +31,13 @@ var $callDeferred = (deferred, jsErr, fromPanic) => {
     $stackDepthOffset--;
     var outerPanicStackDepth = $panicStackDepth;
     var outerPanicValue = $panicValue;
+    var run = { list: null, aborted: false };
 
     var localPanicValue = $curGoroutine.panicStack.pop();
     if (localPanicValue !== undefined) {
         $panicStackDepth = $getStackDepth();
         $panicValue = localPanicValue;
+        $panicRuns.push(run);
     }
 
     try {
@@ -57,6 +61,16 @@ var $callDeferred = (deferred, jsErr, fromPanic) => {
                         msg = localPanicValue;
                     }
                     throw new Error(msg);
+                }
+            }
+            if (localPanicValue !== undefined && run.list !== deferred) {
+                run.list = deferred;
+                /* This panic left the deferred call that raised it and goes on with the list that
+                   call came from: it replaces the panic that was running the call. */
+                for (var i = 0; i < $panicRuns.length - 1; i++) {
+                    if ($panicRuns[i].list === deferred) {
+                        $panicRuns[i].aborted = true;
+                    }
                 }
             }
             var call = deferred.pop();
@@ -103,7 +117,8 @@ var $callDeferred = (deferred, jsErr, fromPanic) => {
         $callDeferred(deferred, e, fromPanic);
     } finally {
         if (localPanicValue !== undefined) {
-            if ($panicStackDepth !== null) {
+            $panicRuns.pop();
+            if ($panicStackDepth !== null && !run.aborted) {
                 $curGoroutine.panicStack.push(localPanicValue);
             }
             $panicStackDepth = outerPanicStackDepth;
